@@ -494,8 +494,18 @@ class SInt:
     def __or__(self, o):
         if not _num(o):
             return NotImplemented
+        if _disjoint_bits(self, o) or _disjoint_bits(o, self):
+            return self + o
         a = self & o
-        return self + o - a
+        r = self + o - a
+        if _real_isinstance(r, SInt):
+            lo1, hi1 = bounds(self)
+            lo2, hi2 = bounds(o)
+            if lo1 is not None and lo2 is not None and lo1 >= 0 and lo2 >= 0:
+                r.lo = max(lo1, lo2)
+                if hi1 is not None and hi2 is not None:
+                    r.hi = (1 << max(hi1.bit_length(), hi2.bit_length())) - 1
+        return r
 
     __ror__ = __or__
 
@@ -526,6 +536,25 @@ class SInt:
     @property
     def real(self):
         return self
+
+
+def _disjoint_bits(a, b):
+    """a is a multiple of 2^k (non-negative or not) and 0 <= b < 2^k"""
+    m, r = stride(a)
+    lo, hi = bounds(b)
+    if lo is None or hi is None or lo < 0:
+        return False
+    if m == 0:  # a constant
+        if r < 0:
+            return False
+        m = r & -r if r else 0
+        if r == 0:
+            return True
+        return hi < m
+    if r % m != 0:
+        return False
+    k = m & -m  # largest power of two dividing the stride
+    return hi < k
 
 
 def _common_bits(a, b):
